@@ -49,7 +49,7 @@ PROPS = {
         "assumptions": ["no mapping/filters/--diff in this check's flag vectors (cells are then per-account cumulative values)"],
     },
     "C09": {
-        "lean": ["Knut.Properties.C09"],
+        "lean": ["Knut.Properties.C09", "Knut.Properties.C09Decimal"],
         "level": "proof",
         "claim": "PARTIAL proof + full correspondence. Proved (all bookings, all amounts): C09_booking_normal_form (rebuilding the booking that print writes from the debit-side posting yields "
                  "the identical posting pair), C09_printed_quantity_nonneg, C09_reprint_same_line, C09_targets_line. Not mechanised: the text-level round trip parse(print J) (needs the "
@@ -180,7 +180,7 @@ PROPS = {
                         "date.NewPartition behaves as the C11 model (established by C11's exhaustive correspondence)"],
     },
     "C11": {
-        "lean": ["Knut.Properties.C11"],
+        "lean": ["Knut.Properties.C11", "Knut.Properties.C11Monitor"],
         "level": "proof",
         "claim": "Lean theorems for all windows, all six intervals and all --last values over the model of lib/common/date: periods are consecutive, "
                  "cover the window exactly, are pairwise disjoint, lie within one calendar unit, start at the window start or a unit start, --last n keeps the n "
